@@ -171,11 +171,11 @@ pub fn record(output: &str) {
     quiet_panics();
     let mut out = Out::create(output);
     let mut r = rng(1212);
-    let n_cases = if thorough() { 108 } else { 18 };
+    let n_cases = if thorough() { 120 } else { 24 };
     let mut case_no = 0usize;
     let reps = if thorough() { 3 } else { 1 };
     for k in 0..n_cases {
-        let obstacle_class = ["free", "blocking", "grazing", "at-stroke-pose", "wrist-flip", "branch-blocking", "repeated-poses", "fragile", "turning"][k % 9];
+        let obstacle_class = ["free", "blocking", "grazing", "at-stroke-pose", "wrist-flip", "branch-blocking", "repeated-poses", "fragile", "turning", "no-steps", "start-collides", "landing-unreachable"][k % 12];
         let y0 = r.gen_range(-0.25..-0.1);
         let y1 = r.gen_range(0.1..0.25);
         let x = r.gen_range(0.85..1.0);
@@ -206,6 +206,15 @@ pub fn record(output: &str) {
             land = steps[0];
             park = steps[3];
         }
+        if obstacle_class == "no-steps" {
+            // landing and parking only: the "stroke" is the straight move between them
+            nsteps = 0;
+            steps = vec![];
+        }
+        if obstacle_class == "landing-unreachable" {
+            // the landing pose is three metres up: no strategy, an error
+            land = down_pose(x, y0, z + 3.0, yaw);
+        }
         if obstacle_class == "turning" {
             // the tool turns by 9 degrees from pose to pose; every second pose is written with the opposite sign of the
             // quaternion (the same rotation)
@@ -223,6 +232,12 @@ pub fn record(output: &str) {
             steps = (0..5).map(|i| down_pose(x, y0 + (y1 - y0) * i as f64 / 4.0, z, [0.0, 1.9, 3.8, 5.7, 7.5][i])).collect();
             park = down_pose(x, y1, z + 0.1, 7.5);
             j6_limit = 2.4;     // (limits are modular: a range of a full turn or more would never force a flip)
+        }
+        if obstacle_class == "start-collides" {
+            // a plate through the tool at the start configuration: planning has to refuse
+            let c0 = cell_with(None, 0, 6.0, false);
+            let t = c0.kws.kinematics.forward(&c0.home).translation.vector;
+            obstacle = Some(WBox { c: [t.x, t.y, t.z + 0.05], h: [0.1, 0.1, 0.002] });
         }
         if obstacle_class == "branch-blocking" {
             // an obstacle that only the strategy closest to the start hits, late on the stroke; another strategy is clean
